@@ -13,6 +13,9 @@ REQUIRED_BRANCHES = [
     "forced-order-achieved",             # deterministic scenario: all calls read one root and were introduced in the forced order
     "merge-window:conflicting-call-during-file-merge",   # harness: a call naming a document of a segment under a FILE merge was
                                          # introduced while the merger stood at EventKindMergeTaskIntroductionStart (merged segment written)
+    "merge-window:conflicting-call-between-plan-and-merge",   # …or while the merger stood INSIDE the planner (CalcBudget hook:
+                                         # snapshot taken, merge task not started)
+    "merge-window:one-live-document-left-after-the-merge",    # …leaving exactly one live document in the merged segment
     "merge-window:size-order-differs-from-id-order",     # …and the merged segments are ordered differently by live size and by id
     "conflicting-overlapping-calls",     # two calls overlapping in time, one adding a document under an id the other names
     "overlapping-calls",
